@@ -312,6 +312,43 @@ def body(prop, args, seed, t0):
                 return 2
     # --- T14 end
 
+    # --- T7: the translated CLASSES PauliTerm / PauliSum (harness/translate_t7.py -> OQ/Generated/TranslatedC03.lean, tied to the model of
+    # C03 by Props/C03_TranslatedPauli.lean) are run at Cyc8 through the generated glue OQ/Generated/TranslatedDriverT7.lean (tag "TRT7")
+    # and compared with the real methods on real objects (harness/translated_check_t7.py); the prelude is compared with CPython for C03
+    # as well; a disagreement is a fault of the translator / prelude, never a verdict about /repo
+    if prop == "C03" and driver.available() and (build_ok or common.lake_build(["oqdriver"])[0]):
+        # (a driver that does not build now would be a stale binary of an earlier run: nothing is compared then)
+        try:
+            from harness import translated_check_t7 as _tc7
+            bad1 = []
+            if "prelude_vs_cpython" not in tie:
+                from harness import prelude_check as _pc7
+                tie["prelude_vs_cpython"], bad1 = _pc7.run(seed)
+            n7, bad7, untr7 = _tc7.run(seed, only=prop)
+            from harness import tables_t7 as _tb7
+            tie["translated_t7_vs_python_method"] = n7
+            tie["untranslatable_now"] = list(tie.get("untranslatable_now", [])) + untr7
+            tie["translated_functions"] = list(tie.get("translated_functions", [])) + [
+                f"operators._pauli_operators.{i['cls'] + '.' if i['cls'] else ''}{i['meth']} -> TranslatedPauli.{nm}"
+                for nm, i in _tb7.current()[1].items()]
+        except Timeout:
+            raise
+        except Exception as e:  # noqa: BLE001  (same policy as for the self-checks above)
+            import traceback
+            tie = dict(tie, self_check_crashed=f"{type(e).__name__}: {e}"[:300])
+            if not broken:
+                traceback.print_exc()
+                print(f"INTERNAL-ERROR property={prop} (a self-check of the translation machinery crashed although every obligation checks; no verdict)")
+                return 2
+            print(f"  note: a translator self-check could not run ({type(e).__name__}: {str(e)[:160]}); {len(broken)} obligation(s) are broken, going on")
+            bad1, bad7 = [], []
+        if bad1 or bad7:
+            for b in (bad1 + bad7)[:10]:
+                print("  translator/prelude disagreement (Pauli classes):", b[:600])
+            print(f"INTERNAL-ERROR property={prop} (the Python->Lean translation misrenders the code; no verdict)")
+            return 2
+    # --- T7 end
+
     # ---- 3. correspondence + oracle
     if args.replay:
         rp = json.load(open(args.replay))
